@@ -202,7 +202,7 @@ def spec_kty(t):
 
 def sql_cases(rng, tier):
     cases = []
-    n = 60 if tier == "quick" else 5000
+    n = 60 if tier == "quick" else 1500
     for i in range(n):
         ncols = 2 + rng.below(3)
         cols = [("c%d" % j, rng.choice(SQL_KEY_TYPES)) for j in range(ncols)]
@@ -210,8 +210,8 @@ def sql_cases(rng, tier):
         batch = rng.choice([1, 2, 3, 7, 16, 64, 2048])
         nrows = rng.choice([0, 1, 2, batch, batch + 1, 3 * batch + 1, 50, 130, 300]) if batch < 100 else rng.choice([0, 1, 5, 60, 300])
         nrows = min(nrows, 400)
-        if tier != "quick" and rng.chance(6):
-            nrows = rng.choice([2049, 4096, 6000])   # several blocks per run, deep merge trees
+        if tier != "quick" and rng.chance(2):
+            nrows = rng.choice([1000, 2049])   # several blocks per run, deeper merge trees
         # half of the cases: a "tie" family - few distinct values per column so that earlier keys tie, and text
         # values that share a prefix longer than the 12-byte key prefix (with duplicates), so that the order is
         # decided by the heap comparison in the block sort and in the merge of several runs
